@@ -387,4 +387,49 @@ Proof.
     change (plit_false (s_ps st) (VRoot, true) = true) in Ef. apply (true_not_false _ _ Hroot Ef).
 Qed.
 
+(* ---------- the unreachable!() of decide ---------- *)
+
+(* state-level form of solve_sat_no_clause_falsified: where the invariants hold, every entry is propagated, the
+   assertions are in force and the exempt set is empty, no clause of the database is falsified *)
+Lemma no_clause_falsified_at (st : sst) :
+  SInv U P A st -> KInv st -> CInv A st -> Done A st -> s_born st = [] -> Rooted (trail st) ->
+  forall id c, nth_error (s_db st) (N.to_nat id) = Some c -> falsified (trail st) (cl_lits c) = false.
+Proof.
+  intros HS HK [C1 C2 C3] [D1 D2] Hb Hr id c Hc.
+  assert (Hroot : plit_true (s_ps st) (VRoot, true) = true).
+  { apply plit_true_spec. unfold pvalue. cbn [fst snd]. apply (rooted_val _ Hr (si_nodup _ _ _ _ _ HS)). }
+  destruct (HK id c Hc) as [[w G]|[[l [G1 G2]]|G]].
+  - assert (Hnb : ~ XB A st id) by (unfold XB; rewrite Hb; intros []).
+    destruct (complete_no_watched_falsified (s_db st) (XB A st) (s_ps st) C2 D1 (si_winv _ _ _ _ _ HS) id w G Hnb) as [_ [c' [Hc' Hf]]].
+    rewrite Hc in Hc'. inversion Hc'. subst c'. exact Hf.
+  - specialize (D2 (l, id) G1). cbn [fst] in D2.
+    destruct (falsified (trail st) (cl_lits c)) eqn:Ef; [|reflexivity]. exfalso.
+    unfold falsified in Ef. rewrite forallb_forall in Ef. specialize (Ef l G2).
+    change (plit_false (s_ps st) l = true) in Ef. apply (true_not_false _ _ D2 Ef).
+  - subst c. destruct (falsified (trail st) (cl_lits (mkCl KRoot [(VRoot, true)]))) eqn:Ef; [|reflexivity]. exfalso.
+    unfold falsified in Ef. rewrite forallb_forall in Ef. specialize (Ef (VRoot, true) (or_introl eq_refl)).
+    change (plit_false (s_ps st) (VRoot, true) = true) in Ef. apply (true_not_false _ _ Hroot Ef).
+Qed.
+
+(* ... and there decide cannot reach its unreachable!(): that needs a Requires clause whose parent is installed
+   and all of whose candidates are false -- a falsified clause *)
+Theorem decide_no_panic_at (st : sst) :
+  SInv U P A st -> KInv st -> CInv A st -> Done A st -> s_born st = [] -> Rooted (trail st) ->
+  decide U (a_ge (s_act st)) (s_db st) (tr_lits st) <> None.
+Proof.
+  intros HS HK HC HD Hb Hr Hd.
+  destruct (decide_panic U (a_ge (s_act st)) (tr_lits st) (s_db st) (sinv_req_wf U P A st HS) Hd) as [c [p [r [cands [Hc [Hk [Hp Hall]]]]]]].
+  destruct (In_nth_error _ _ Hc) as [k Hk'].
+  assert (Hf : falsified (trail st) (cl_lits c) = false).
+  { apply (no_clause_falsified_at st HS HK HC HD Hb Hr (N.of_nat k) c). rewrite Nat2N.id. exact Hk'. }
+  assert (Ht : falsified (trail st) (cl_lits c) = true).
+  { rewrite (wf_lits U c p r cands Hk (sinv_req_wf U P A st HS c Hc)). unfold falsified. apply forallb_forall.
+    intros l [E|Hl].
+    - subst l. cbn [fst snd negb]. unfold lit_istrue, lit_val in Hp. cbn [fst snd] in Hp. unfold tr_lits in Hp.
+      destruct (pval (tl_lits (trail st)) p) as [b|]; [|discriminate]. destruct b; [reflexivity | discriminate].
+    - apply in_map_iff in Hl. destruct Hl as [x [E Hx]]. subst l. rewrite Forall_forall in Hall. specialize (Hall x Hx).
+      unfold cfalse, tr_lits in Hall. unfold pos. cbn [fst snd negb]. rewrite Hall. reflexivity. }
+  rewrite Hf in Ht. discriminate.
+Qed.
+
 End Cover.
